@@ -8,7 +8,7 @@ import common
 common.repo_on_path()
 import c13
 behs = []
-for seed in (9001, 9002, 9003):
+for seed in (9001, 9002, 9003, 9004, 9005, 9006):
     r = c13.simulate(400, 140, seed)
     if r.violated:
         sys.exit("model violated: %s" % r.violated)
@@ -40,7 +40,16 @@ extra = [b for b in behs if "pcm_shift" in feats(b) and len(b["note"]) >= 4][:12
 chosen += extra
 behs = [b for b in behs if b not in extra]
 behs.sort(key=lambda b: -len(set(b["note"])))
-chosen += behs[:24]
+chosen += behs[:100]
+behs = behs[100:]
+# several LPC blocks in one stream (orders that differ from block to block and from channel to channel), and silent
+# blocks followed by DIFF0 / QLPC blocks with a running mean
+multi_lpc = [b for b in behs if b["note"].count(7) >= 2 and b["hdr"]["maxnlpc"] >= 2][:80]
+chosen += multi_lpc
+behs = [b for b in behs if b not in multi_lpc]
+zero_mean = [b for b in behs if b["hdr"]["nmean"] > 0 and any(c == 8 and any(d in (0, 7) for d in b["note"][i + 1:i + 5])
+                                                            for i, c in enumerate(b["note"]))][:60]
+chosen += zero_mean
 out = os.path.join("/verif/harness/data/shorten_corpus.json")
 json.dump({"generated_by": "tools/make_shorten_corpus.py from spec/Shorten.tla (MC_Shorten, Shorten_sim.cfg)", "covered": sorted(covered),
            "behaviours": chosen}, open(out, "w"))
